@@ -285,3 +285,44 @@
 (define-fun knownIp ((MV_String_String (Array Int (Array String String))) (tbl Int) (a String)) String
   (ite (not (= (str.len (parseIP a)) 0)) a (select (select MV_String_String tbl) a)))
 ;@ghost poproutes (Seq Int)
+
+;@chunk decisions brOk
+;@ghost brOk (Seq Bool)
+;@ghost brHost (Seq String)
+;@ghost brPort (Seq Int)
+;@ghost brTransport (Seq String)
+;@ghost bcOk (Seq Bool)
+;@ghost bcHost (Seq String)
+;@ghost bcPort (Seq Int)
+;@ghost bcTransport (Seq String)
+;@ghost routeOk (Seq Bool)
+;@ghost routeHost (Seq String)
+;@ghost routePort (Seq Int)
+;@ghost routeTransport (Seq String)
+;@ghost mineRes (Seq Bool)
+;@ghost frDest (Seq String)
+;@ghost frOk (Seq Bool)
+;@ghost frHost (Seq String)
+;@ghost frPort (Seq Int)
+;@ghost frProto (Seq String)
+
+;@chunk myname nameMatchesSip
+; a configured service name matches a SIP URI's (user, host): either the bare host, or user@host
+(define-fun nameMatchesSip ((name String) (user String) (host String)) Bool
+  (ite (= (str.indexof name "@" 0) (- 1))
+       (= host name)
+       (and (= host (str.substr name (+ (str.indexof name "@" 0) 1) (str.len name)))
+            (= user (str.substr name 0 (str.indexof name "@" 0))))))
+;@ghost gdOk (Seq Bool)
+;@ghost gdId (Seq String)
+;@ghost lookups (Seq String)
+;@ghost gbOk (Seq Bool)
+;@ghost gbBackend (Seq Any)
+;@ghost fbdOk (Seq Bool)
+;@ghost fbdBackend (Seq Any)
+;@ghost fbdTransport (Seq Any)
+;@ghost gborOk (Seq Bool)
+;@ghost gborBackend (Seq Any)
+;@ghost ctOk (Seq Bool)
+;@ghost ctId (Seq String)
+;@ghost fbpi (Seq Int)
